@@ -27,6 +27,12 @@ type grammarVec struct {
 	M  string          `json:"m"`
 	N  int             `json:"n"`
 	WV map[string]bool `json:"w"`
+	// insertions into a complete document (class c inserted before symbol p+1) with the verdicts of the wrapped results
+	Ins []struct {
+		P int             `json:"p"`
+		C string          `json:"c"`
+		W map[string]bool `json:"w"`
+	} `json:"ins"`
 }
 
 type c05Case struct {
@@ -338,6 +344,31 @@ func c05Vector(c *Ctx, raw stdjson.RawMessage) {
 				continue
 			}
 			c05Check(c, w.name, w.accepts, wd, want, tag, "wrap="+w.wrap)
+		}
+	}
+	// 1b. a killing class inserted inside a complete document, the rest of the document following: not JSON
+	// on its own; embedded in an array or an object as the specification says (typed targets that skip values
+	// must enforce the same language).  All structural insertions, a seeded choice of the others.
+	for _, in := range v.Ins {
+		structural := strings.Contains(",:[]{}\"", in.C)
+		if !structural && r.intn(6) != 0 {
+			continue
+		}
+		cls := append(append(append([]string(nil), v.D[:in.P]...), in.C), v.D[in.P:]...)
+		d := liftDoc(cls, pickRnd, 0, 'x')
+		c.Case()
+		c05All(c, d, false, structural, tag, "insert="+in.C)
+		for _, w := range c05Wrappers {
+			want, ok := in.W[w.wrap]
+			if !ok {
+				continue
+			}
+			wd := append(append([]byte(w.pre), d...), w.post...)
+			if stdjson.Valid(wd) != want {
+				c.SpecError("C05", "encoding/json.Valid disagrees with JsonGrammar on a wrapped insertion "+w.wrap, c05Case{w.name, hex.EncodeToString(wd), want})
+				continue
+			}
+			c05Check(c, w.name, w.accepts, wd, want, tag, "wrap="+w.wrap, "insert="+in.C)
 		}
 	}
 	// 2. every killing class, every representative byte: doc+k and doc+k+completion are not JSON
